@@ -66,7 +66,13 @@ class Container:
     def __contains__(self, item):
         if hasattr(item, "id"):
             if isinstance(item, self._itemclass):
-                return item.name in self._backend
+                # membership is by identity: the member with that name must be
+                # this very entity, not a namesake from another parent
+                name = item.name
+                if name not in self._backend:
+                    return False
+                member = self._backend.get_by_name(name)
+                return member.get_attr("entity_id") == item.id
             # looks like a NIX object, but wrong type
             raise TypeError(
                 "Wrong item type: {} required or the name or ID of one".format(
